@@ -22,6 +22,7 @@ import (
 	"os"
 	"strings"
 	"sync"
+	"sync/atomic"
 	"time"
 
 	"verif/h"
@@ -92,7 +93,14 @@ userConnTimeout = 30
 	return s, nil
 }
 
+// discarded counts servers given up because routes were left behind; beyond a bound the remaining cases are
+// skipped (every one of them would report the same finding and use up the port range).
+var discarded atomic.Int64
+
 func acquire(variant int) (*srvInst, error) {
+	if discarded.Load() > 40 {
+		return nil, fmt.Errorf("too many servers left dirty by earlier cases")
+	}
 	select {
 	case s := <-pools[variant]:
 		return s, nil
@@ -106,6 +114,7 @@ func release(s *srvInst, clean bool) {
 	if !clean {
 		s.srv.Close()
 		run.Count("servers_discarded", 1)
+		discarded.Add(1)
 		return
 	}
 	select {
@@ -118,6 +127,14 @@ func release(s *srvInst, clean bool) {
 func routesEmpty(s *srvInst) bool {
 	sn := s.srv.Snapshot()
 	return len(sn.HTTPRoutes)+len(sn.HTTPSRoutes)+len(sn.TCPMuxRoutes)+len(sn.Sessions) == 0
+}
+
+// waitClean: every session has left the session table (frps closes a session's proxies before that, so this is
+// the acknowledgement of the removals; bounded-progress watchdog 20 s), then the route tables must be empty
+// (1 s grace for the snapshot to be taken).
+func waitClean(s *srvInst) bool {
+	h.Eventually(20*time.Second, func() bool { return len(s.srv.Snapshot().Sessions) == 0 })
+	return h.Eventually(time.Second, func() bool { return routesEmpty(s) })
 }
 
 func main() {
